@@ -196,10 +196,11 @@ Record Ext (c c' : core) : Prop := {
   x_if : t_interfaces (c_types c') = t_interfaces (c_types c);
   x_world : t_worlds (c_types c') = t_worlds (c_types c);
   x_mod : t_modules (c_types c') = t_modules (c_types c);
-  x_remapped : forall k v, rm_get k (c_remapped c) = Some v -> rm_get k (c_remapped c') = Some v }.
+  x_remapped : forall k v, rm_get k (c_remapped c) = Some v -> rm_get k (c_remapped c') = Some v;
+  x_noif : forall i, rm_get (TInterface i) (c_remapped c') = rm_get (TInterface i) (c_remapped c) }.
 Lemma Ext_refl c : Ext c c. Proof. split; auto using ext_refl. Qed.
 Lemma Ext_trans a b c : Ext a b -> Ext b c -> Ext a c.
-Proof. intros [A1 A2 A3 A4 A5 A6 A7 A8] [B1 B2 B3 B4 B5 B6 B7 B8]. split; eauto using ext_trans; congruence. Qed.
+Proof. intros [A1 A2 A3 A4 A5 A6 A7 A8 A9] [B1 B2 B3 B4 B5 B6 B7 B8 B9]. split; eauto using ext_trans; congruence. Qed.
 
 Lemma rm_get_ins_same k v l : rm_get k (rm_ins k v l) = Some v.
 Proof.
@@ -379,9 +380,10 @@ Section Copy.
     { apply Hnode; auto. unfold get_def, agg'. cbn [t_tag t_defined t_with_defined]. apply lookup_new. }
     split; [exact Hy|]. split.
     - split; cbn [c_types c_imports c_ifaces c_chk c_remapped with_remapped with_types]; auto.
-      intros k v Hk. destruct (ty_eqb (TValue (VDefined d)) k) eqn:Ek.
-      + apply tyeqb_eq in Ek. subst k. congruence.
-      + rewrite rm_get_ins_other; auto. intro X. apply tyeqb_eq in X. congruence.
+      + intros k v Hk. destruct (ty_eqb (TValue (VDefined d)) k) eqn:Ek.
+        * apply tyeqb_eq in Ek. subst k. congruence.
+        * rewrite rm_get_ins_other; auto. intro X. apply tyeqb_eq in X. congruence.
+      + intros i. apply rm_get_ins_other. discriminate.
     - apply RInv_new_def with (tr := tr); auto.
   Qed.
 
@@ -606,9 +608,10 @@ Section Copy.
     split; [exact Hy|]. split.
     - eapply Ext_trans; [exact E1|]. eapply Ext_trans; [exact E2|].
       split; cbn [c_types c_imports c_ifaces c_chk c_remapped with_remapped with_types]; auto.
-      intros k v Hk. destruct (ty_eqb (TFunc i) k) eqn:Ek.
-      + apply tyeqb_eq in Ek. subst k. congruence.
-      + rewrite rm_get_ins_other; auto. intro X. apply tyeqb_eq in X. congruence.
+      + intros k v Hk. destruct (ty_eqb (TFunc i) k) eqn:Ek.
+        * apply tyeqb_eq in Ek. subst k. congruence.
+        * rewrite rm_get_ins_other; auto. intro X. apply tyeqb_eq in X. congruence.
+      + intros i0. apply rm_get_ins_other. discriminate.
     - apply RInv_new_func with (ft := mkft ps r (f_async x0)); auto.
   Qed.
 
